@@ -33,6 +33,26 @@ theorem filter_size_capacity (n b : Nat) : n * b ≤ 256 * numSplitBlocksOf n b 
 /-- with zero values (or zero bits per value) the filter is empty: 0 blocks -/
 theorem filter_size_zero (b : Nat) : numSplitBlocksOf 0 b = 0 := by simp [numSplitBlocksOf]
 
+/-- PRE-SIZING (`WriteRowGroup` → `configureBloomFilters`): whatever the source announces, the filter
+    allocated ahead of the first output row group is a whole number of blocks — the `presizedBlocks`
+    hypothesis of `ChunkOk` holds for every pre-sized chunk -/
+theorem presized_filter_whole_blocks (bits : Nat) (exact : Bool) (srcValues numRows maxRows : Nat) (repeated : Bool) :
+    presize bits exact srcValues numRows maxRows repeated % 32 = 0 :=
+  presize_whole_blocks bits exact srcValues numRows maxRows repeated
+
+/-- … and it holds `bits` bits for each of the `n` values of that row group (`n` at most the source's
+    count; one value per row at most unless the column is repeated — then a split input is not
+    pre-sized at all) -/
+theorem presized_filter_capacity (bits : Nat) (exact : Bool) (srcValues numRows maxRows : Nat) (repeated : Bool)
+    (n : Nat) (hsv : n ≤ srcValues) (hrow : repeated = false → n ≤ maxRows)
+    (hpos : 0 < presize bits exact srcValues numRows maxRows repeated) :
+    n * bits ≤ 8 * presize bits exact srcValues numRows maxRows repeated :=
+  presize_capacity bits exact srcValues numRows maxRows repeated n hsv hrow hpos
+
+example : presize 10 true 1000 1000 300 false = 384 := by decide   -- split input: sized for 300 values
+example : presize 10 true 1000 1000 300 true = 0 := by decide      -- repeated column: left to flushFilterPages
+example : presize 10 true 1000 1000 5000 true = 1280 := by decide
+
 /-! ## 2. the three build strategies insert exactly the hashes of the chunk's values -/
 
 theorem mem_pageHashes (kind : Kind) (values : List Value) (hv : ∀ v ∈ values, v.kindOk kind = true)
